@@ -720,7 +720,9 @@ func GetAPSource(val *fastjson.Value) Source {
 		s.Content = JSONGetNaturalLanguageField(val.Get("source"), "contentMap")
 	}
 	if mimeBytes := val.Get("source", "mediaType").GetStringBytes(); len(mimeBytes) > 0 {
-		s.MediaType.UnmarshalJSON(mimeBytes)
+		// NOTE(marius): the parser has decoded the string already: a quote at either end belongs to the media type
+		// (text/plain; charset="utf-8"), it does not delimit it
+		s.MediaType = MimeType(mimeBytes)
 	}
 
 	return s
